@@ -87,6 +87,17 @@ func c09Corpus() []c09Item {
    {"name":"A","is_target":true,"min":0,"max":-1,"elements":[{"name":"e1","index":1},{"name":"e2","index":2,"default":"-"}]}]},
  "transform_declarations":{"FINAL_OUTPUT":{"object":{"e1":{"xpath":"e1","no_trim":true},"e2":{"xpath":"e2"}}}}}`,
 		"A*x?~y*1~A*z??~A*w?~?~~A*?*?~*last?~", "A*a??~A*b?~", "A*1~\nA*2~")
+	// more than a hundred CR/LF bytes in a row under ignore_crlf (a reader that answers (0, nil) while it
+	// skips them runs into bufio's 100-empty-reads limit when the input arrives in small pieces)
+	add("c09/edi-ignore-crlf-long-blank-run", `{`+c09Hdr("edi", "")+`,
+ "file_declaration":{"segment_delimiter":"~","element_delimiter":"*","ignore_crlf":true,"segment_declarations":[
+   {"name":"A","is_target":true,"min":0,"max":-1,"elements":[{"name":"e1","index":1}]}]},
+ "transform_declarations":{"FINAL_OUTPUT":{"object":{"e1":{"xpath":"e1"}}}}}`,
+		"A*1~\r\nA*2~A*3~"+strings.Repeat("\r\n", 130)+"A*4~\nA*5~", "A*1~"+strings.Repeat("\n", 257)+"A*2"+strings.Repeat("\r", 120)+"2~")
+	// many very short lines in a JSON input, with failing records: the line number in the error text
+	add("c09/json-many-short-lines", `{`+c09Hdr("json", "")+`,"transform_declarations":{"FINAL_OUTPUT":{"xpath":"/*","object":{"v":{"xpath":".","type":"int"}}}}}`,
+		"[\n"+strings.Repeat("1,\n", 11)+"\"x\",\n"+strings.Repeat("2,\n", 150)+"\"y\",\n"+strings.Repeat("\n", 200)+"3,\"z\"\n]\n",
+		"["+strings.Repeat("\n", 300)+"\"x\","+strings.Repeat("\n", 90)+"1]")
 	add("c09/edi-escaped-lf-segdelim", `{`+c09Hdr("edi", "")+`,
  "file_declaration":{"segment_delimiter":"\n","element_delimiter":"|","release_character":"\\","segment_declarations":[
    {"name":"A","is_target":true,"min":0,"max":-1,"elements":[{"name":"e1","index":1}]}]},
